@@ -211,11 +211,15 @@ def layout_seam(layout):
     real_nx = gt.nx
     real_kk = nx.kamada_kawai_layout
 
+    calls = [0]
+
     def kk(G, dim=2, **k):
+        # every call its own fixed stream (polyply redraws the layout until the impropers have the right sign)
         nodes = list(G.nodes)
         if len(nodes) == 1:
             return {nodes[0]: np.zeros(dim)}
-        rs = np.random.RandomState(1000 + layout)
+        rs = np.random.RandomState(1000 + layout + 7 * calls[0])
+        calls[0] += 1
         return real_kk(G, pos={n: rs.rand(dim) for n in nodes}, dim=dim, **k)
     shim = types.SimpleNamespace(**{k: getattr(nx, k) for k in dir(nx) if not k.startswith("__")})
     shim.kamada_kawai_layout = kk
@@ -289,12 +293,18 @@ def judge_templates(top, records, defs, resnames, case1, user=None):
             bad("isomorphic-residues-share-template", f"residues {i},{j} sizes differ")
         if sorted(di["names"]) != sorted(dj["names"]) and keys[i] == keys[j]:
             bad("different-atom-names-different-template", f"residues {i},{j} have different atom names but share key {keys[i]}")
-    # optimisation verdicts
-    for rec in records:
+    # optimisation verdicts.  GenerateTemplates optimises in two stages per attempt; the verdict of the second one decides
+    # whether the template counts as optimised, and then ALL bond / constraint / angle / improper targets of the residue
+    # must hold, whatever list of interaction types polyply handed to its optimiser.  A positive first-stage verdict is
+    # judged on the interaction types it was asked to look at.
+    if len(records) % 2:
+        bad("harness-optimisation-stages", f"{len(records)} optimiser calls, expected pairs", ["harness"])
+    for ri, rec in enumerate(records):
         if not rec["ok"]:
             continue
         blk, co = rec["block"], rec["coords"]
-        for sec in rec["inter_types"]:
+        secs = ["bonds", "constraints", "angles", "dihedrals"] if ri % 2 else rec["inter_types"]
+        for sec in secs:
             for it in blk.interactions.get(sec, []):
                 pts = [co[a] for a in it.atoms]
                 if sec in ("bonds", "constraints"):
@@ -547,9 +557,44 @@ def check_optgeom(case):
     return viols, evals, keys
 
 
+def check_constr(case):
+    """residues whose geometry is held by constraints (alone or next to bonds) and shaped by an improper: two fused
+    triangles A-B-C / B-C-D; the improper A-B-C-D opens or folds the hinge"""
+    viols, evals, keys = [], 0, []
+    ring = [(0, 1), (1, 2), (0, 2), (1, 3), (2, 3)]
+    for held in ("constraints", "bonds", "mixed"):
+        for ref in (180.0, 140.0, -140.0, 100.0):
+            for layout in (0, 1, 2):
+                d = dict(id=f"fused.{held}", names=["A", "B", "C", "D"], bonds=[], angles=[])
+                cons = []
+                for k, (a, b) in enumerate(ring):
+                    if held == "bonds" or (held == "mixed" and k % 2):
+                        d["bonds"].append((a, b, 0.3))
+                    else:
+                        cons.append(f"{a + 1} {b + 1} 1 0.3")
+                extra = {}
+                if cons:
+                    extra["constraints"] = cons
+                extra["dihedrals"] = [f"1 2 3 4 2 {ref} 50"]
+                evals += 1
+                case1 = dict(kind="constr1", held=held, ref=ref, layout=layout)
+                try:
+                    top, recs = gen_templates(top_for([d], ["R"], extra_inter=extra), None, layout)
+                except Exception as exc:  # noqa
+                    viols.append(crash_violation(exc, case1, assertion="templates-generated"))
+                    continue
+                dd = dict(d, bonds=[(a, b, 0.3) for a, b in ring])
+                v, _ = judge_templates(top, recs, [dd], ["R"], case1)
+                viols += v
+                if any(r["ok"] for r in recs[1::2]):
+                    keys.append(f"constr:{held}:{ref}:{layout}")
+    return viols, evals, keys
+
+
 def cases(tier):
     yield dict(kind="vs", tier=tier)
     yield dict(kind="optgeom", tier=tier)
+    yield dict(kind="constr", tier=tier)
     nparts = 24
     for p in range(nparts):
         yield dict(kind="pairs", part=p, nparts=nparts, tier=tier)
@@ -559,12 +604,12 @@ def cases(tier):
     yield dict(kind="user", tier=tier)
 
 
-FUNCS = {"optgeom": check_optgeom, "twomol": check_two_molecules, "vs": check_vs, "pairs": check_pairs, "vsres": check_vs_residues, "user": check_user}
+FUNCS = {"constr": check_constr, "optgeom": check_optgeom, "twomol": check_two_molecules, "vs": check_vs, "pairs": check_pairs, "vsres": check_vs_residues, "user": check_user}
 
 
 def run_case(case):
     if case["kind"] not in FUNCS:
-        fam = {"vs1": "vs", "pair1": "pairs", "vsres1": "vsres", "user1": "user", "twomol1": "twomol", "optgeom1": "optgeom"}[case["kind"]]
+        fam = {"vs1": "vs", "pair1": "pairs", "vsres1": "vsres", "user1": "user", "twomol1": "twomol", "optgeom1": "optgeom", "constr1": "constr"}[case["kind"]]
         out = []
         for part in range(24 if fam == "pairs" else 1):
             v, _, _ = FUNCS[fam](dict(kind=fam, tier="thorough", part=part, nparts=24))
